@@ -1,5 +1,5 @@
 import DtsVerif.Props.C01
-import DtsVerif.Props.Scatter
+import DtsVerif.Props.ScatterOrder
 import DtsVerif.Props.ObsSpec
 import Mathlib.Tactic.Positivity
 import Mathlib.Tactic.FieldSimp
